@@ -26,8 +26,12 @@ func deepCloneC09(in []AuthInternalUser) []AuthInternalUser {
 	out := make([]AuthInternalUser, len(in))
 	for i, u := range in {
 		out[i] = u
-		out[i].IPs = append(IPNetworks(nil), u.IPs...)
-		out[i].Permissions = append([]AuthInternalUserPermission(nil), u.Permissions...)
+		if u.IPs != nil {
+			out[i].IPs = append(IPNetworks{}, u.IPs...)
+		}
+		if u.Permissions != nil {
+			out[i].Permissions = append([]AuthInternalUserPermission{}, u.Permissions...)
+		}
 	}
 	return out
 }
